@@ -13,6 +13,7 @@ import (
 	"time"
 
 	"github.com/ogen-go/ogen"
+	"github.com/ogen-go/ogen/gen"
 	"github.com/ogen-go/ogen/location"
 	"github.com/ogen-go/ogen/openapi"
 	"github.com/ogen-go/ogen/openapi/parser"
@@ -51,6 +52,13 @@ func definition(kind string, decoy bool) M {
 	default: // pathItem
 		return M{"get": M{"responses": M{"200": M{"description": "ok", "content": M{"application/json": M{"schema": M{"type": typ}}}}}}}
 	}
+}
+
+func definitionCopy(m M) M {
+	b, _ := json.Marshal(m)
+	var out M
+	json.Unmarshal(b, &out)
+	return out
 }
 
 func ok200() M { return M{"200": M{"description": "ok"}} }
@@ -121,6 +129,25 @@ func render(c caseT) (root M, files map[string]M, inlined M) {
 			comps[fmt.Sprintf("C%d", i)] = ringMember(c.Kind, i%c.N+1)
 		}
 		root = doc(c.Kind, sites(c.Kind, func() any { return ref("", c.Kind, 1) }), comps)
+	case "diamond":
+		// Base is reached through two sibling variants of Event; n=2 reverses the variant order
+		base := M{"type": "object", "required": []string{"x"}, "properties": M{"x": M{"type": "integer"}}}
+		ext := func(b any) M {
+			return M{"allOf": []any{b, M{"type": "object", "required": []string{"y"}, "properties": M{"y": M{"type": "string"}}}}}
+		}
+		variants := func(b1, e any) []any {
+			if c.N == 2 {
+				return []any{e, b1}
+			}
+			return []any{b1, e}
+		}
+		comps["Base"] = base
+		comps["Extended"] = ext(M{"$ref": "#/components/schemas/Base"})
+		comps["Event"] = M{"oneOf": variants(M{"$ref": "#/components/schemas/Base"}, M{"$ref": "#/components/schemas/Extended"})}
+		root = doc(c.Kind, sites(c.Kind, func() any { return M{"$ref": "#/components/schemas/Event"} }), comps)
+		// one reference replaced by a copy of its target (the property's wording): Extended inlines Base
+		comps2 := M{"Base": base, "Extended": ext(definitionCopy(base)), "Event": comps["Event"]}
+		inlined = doc(c.Kind, sites(c.Kind, func() any { return M{"$ref": "#/components/schemas/Event"} }), comps2)
 	case "cross":
 		other := M{}
 		for i := 1; i < c.N; i++ {
@@ -329,11 +356,12 @@ func Check(r *core.Run) error {
 		if pr.api != nil {
 			pe = reparseExpanded(pr.api)
 		}
+		gr, gi := genOutcome(root, files), genOutcome(inl, nil)
 		installHooks(col.sink)
-		b, _ := json.Marshal(M{"k": "case", "kind": c.Kind, "shape": c.Shape, "n": c.N, "outcome": pr.outcome, "outInl": pi.outcome,
+		b, _ := json.Marshal(M{"k": "case", "kind": c.Kind, "shape": c.Shape, "n": c.N, "outcome": pr.outcome, "outInl": pi.outcome, "gr": gr, "gi": gi,
 			"pr": Hash(pr.proj), "pi": Hash(pi.proj), "pe": Hash(pe.proj), "ctx": 0, "loc": "", "ptr": "", "depthLeft": 0, "stack": 0, "limit": 0})
 		col.lines = append(col.lines, b)
-		d := fmt.Sprintf("%s %s n=%d: referencing document -> %s %s; inlined -> %s; expanded+reparsed -> %s %s", c.Kind, c.Shape, c.N, pr.outcome, firstLine(pr.errText), pi.outcome, pe.outcome, firstLine(pe.errText))
+		d := fmt.Sprintf("%s %s n=%d: referencing document -> %s %s; inlined -> %s; expanded+reparsed -> %s %s; generator: referencing %s, inlined %s", c.Kind, c.Shape, c.N, pr.outcome, firstLine(pr.errText), pi.outcome, pe.outcome, firstLine(pe.errText), gr, gi)
 		if pr.outcome == "ok" && pi.outcome == "ok" && pr.proj != pi.proj {
 			d += "\n    referencing: " + clip(pr.proj) + "\n    inlined:     " + clip(pi.proj)
 		}
@@ -456,3 +484,31 @@ func clip(s string) string {
 
 // Replay re-runs the check (cases are deterministic).
 func Replay(r *core.Run, path string) error { return Check(r) }
+
+// genOutcome runs the generator's IR construction on a document: "ok" or the error class.
+func genOutcome(root M, files map[string]M) (out string) {
+	defer func() {
+		if e := recover(); e != nil {
+			out = "panic"
+		}
+	}()
+	data, _ := json.Marshal(root)
+	spec, err := ogen.Parse(data)
+	if err != nil {
+		return "parse-error"
+	}
+	ext := mapResolver{}
+	for name, m := range files {
+		b, _ := json.Marshal(m)
+		ext[name] = b
+	}
+	opts := gen.Options{}
+	opts.Parser.AllowRemote = true
+	opts.Parser.Remote.ReadFile = func(p string) ([]byte, error) { return ext.Get(context.Background(), p) }
+	opts.Parser.RootURL = &url.URL{Scheme: "file", Path: "/root.json"}
+	opts.Parser.File = location.NewFile("root.json", "root.json", data)
+	if _, err := gen.NewGenerator(spec, opts); err != nil {
+		return "error"
+	}
+	return "ok"
+}
